@@ -13,6 +13,7 @@ ap.add_argument('-limit', type=int, default=0)
 ap.add_argument('-ids', default='', help='comma list of mutant ids (as numbered after -only selection) to run')
 ap.add_argument('-append', action='store_true')
 ap.add_argument('-ops', default='', help='comma list of operators to keep')
+ap.add_argument('-typed', action='store_true', help='with -neutral: the type-aware rewrites of `verifsa neutral-sites`')
 ap.add_argument('-neutral', action='store_true', help='behaviour-preserving single-site rewrites (mutate -neutral): every check must stay silent; no tests are run')
 ap.add_argument('-out', default='/verif/selftest/mutation/results.tsv')
 a = ap.parse_args()
@@ -23,7 +24,8 @@ shutil.rmtree(base, ignore_errors=True); os.makedirs(base)
 # the campaign works on /repo's HEAD (git archive), not on its working tree, so that it can run while another tool has a patch applied there
 head = f'{base}/head'; os.makedirs(head)
 subprocess.run('git -C /repo archive HEAD | tar -x -C ' + head, shell=True, check=True)
-muts = [json.loads(l) for l in subprocess.run(['/verif/bin/mutate'] + (['-neutral'] if a.neutral else []) + [head], capture_output=True, text=True).stdout.splitlines()]
+gen = ['/verif/bin/verifsa', 'neutral-sites', '-repo', head] if a.typed else ['/verif/bin/mutate'] + (['-neutral'] if a.neutral else []) + [head]
+muts = [json.loads(l) for l in subprocess.run(gen, capture_output=True, text=True, env=dict(os.environ, GOFLAGS='-mod=mod', GOPROXY='off', GOSUMDB='off', GOTOOLCHAIN='local')).stdout.splitlines()]
 sel = []; g = 0
 for m in muts:
     if a.only and not any(o in m['file'] for o in a.only.split(',')): continue
